@@ -13,6 +13,7 @@ import (
 	"os"
 	"os/exec"
 	"path/filepath"
+	"regexp"
 	"sort"
 	"strconv"
 	"strings"
@@ -489,20 +490,16 @@ func newReplayer(repo, root, scratch, modfile string) *replayer {
 
 func (rp *replayer) cleanup() {}
 
+var harnessFuncRe = regexp.MustCompile(`(?m)^func ([A-Z]\w*)\(\)\s*\{`)
+
 // harnessFuncs lists the niladic exported funcs of the harness files of a package (by scanning "func X()").
 func harnessFuncs(dir string) []string {
 	var out []string
 	files, _ := filepath.Glob(filepath.Join(dir, "*.go"))
 	for _, f := range files {
 		d, _ := os.ReadFile(f)
-		for _, line := range strings.Split(string(d), "\n") {
-			if strings.HasPrefix(line, "func ") && strings.Contains(line, "() {") {
-				name := strings.TrimPrefix(line, "func ")
-				name = name[:strings.Index(name, "(")]
-				if name != "" && name[0] >= 'A' && name[0] <= 'Z' {
-					out = append(out, name)
-				}
-			}
+		for _, mm := range harnessFuncRe.FindAllStringSubmatch(string(d), -1) {
+			out = append(out, mm[1])
 		}
 	}
 	sort.Strings(out)
